@@ -21,7 +21,8 @@ Inductive call :=
 | CHypTransfer (sender token : string) (domain : Z) (recipient : string) (amt : Z) (hook : option string)
                (gas : Z) (fee_denom : string) (fee_amt : Z) (metadata : string)
 | CBankSend (from to denom : string) (amt : Z)        (* bank MsgServer.Send *)
-| CCctpReplace (from orig_msg orig_att new_caller new_recipient : string).
+| CCctpReplace (from orig_msg orig_att new_caller new_recipient : string)
+| CSend (from to denom : string) (amt : Z).          (* bank SendCoins between arbitrary accounts (test controllers) *)
 
 Record pst := {
   ps_l : ledger;
